@@ -54,6 +54,8 @@ BASES = {
     "cat_x_mr_ov_w": (S.schema2("cat_x_mr_ov_w", A2, M2, weighted=True, overlaps=True), (1, 2), (None,), [(None, None)], 1, 2, (1,)),
     # multiple-response ROWS: every row has its own column bases (also for a subtotal column)
     "mr_x_cat": (S.schema2("mr_x_cat", M2, B3), (1,), (None,), [(None, None), (None, csub)], 2, 3, (1, 3)),
+    "mr_x_cat_sq": (S.schema2("mr_x_cat_sq", M2, B3, weighted=True, squared=True), (1, 2), (None,), [(None, None), (None, csub)],
+                    2, 2, (1,)),
     "mr_x_mr_ov": (S.schema2("mr_x_mr_ov", N2, M2, overlaps=True), (1,), (None,), [(None, None)], 1, 2, (1, 3)),
     "means_cat_x_cat": (S.schema2("means_cat_x_cat", A2, B3, numeric=dict(MEANS)), (1,), (None, 1, 3, 4),
                         [(None, None), (rsub, csub)], 2, 3, (1,)),
